@@ -84,7 +84,7 @@ OptPart(m) == [v \in {x \in DOMAIN m : x[1] = "O"} |-> m[v]]
 
 \* the property's law, stated on the reference
 LawOK(ps) ==
-  CASE Grp.rel \in {"respell", "swap", "insert", "same"} -> \A i \in DOMAIN ps : ps[i].acc = ps[1].acc
+  CASE Grp.rel \in {"respell", "swap", "tokswap", "insert", "same"} -> \A i \in DOMAIN ps : ps[i].acc = ps[1].acc
     [] Grp.rel = "envmono" ->
          /\ (ps[1].acc # {} => ps[2].acc # {})
          \* value clause (--free specs): every derivation of the smaller environment survives as it is
